@@ -84,6 +84,11 @@ def r1_free_fixed(rule, root=None):
             if filt and filt.get("k") == "Closure" and mp and mp.get("k") == "Closure" and free_filter_ok(filt):
                 m = txt(mp).fmatch("|($I,($V,$P))|(*$V,$I)") or txt(mp).fmatch("|($I,($V,_))|(*$V,$I)")
                 ok = m is not None
+    if not ok:
+        tn = txt(new["body"])
+        for src in ("vars", "vars.iter()"):
+            if tn.fmatch("for($V,$P)in%s{ifmatches!($P,Parameter::Free(..)){let$N=grad_index.len();grad_index.insert(*$V,$N);}}" % src) is not None or tn.fmatch("for($V,$P)in%s{ifmatches!($P,Parameter::Free(..)){grad_index.insert(*$V,grad_index.len());}}" % src) is not None:
+                ok = True
     if ok:
         rule.ok("grad_index numbers exactly the Free parameters, densely", file=SOL, line=new["ln"])
     else:
@@ -134,6 +139,12 @@ def r1_free_fixed(rule, root=None):
         m = t2.fmatch("Parameter::Fixed($P)=>{*$F=*$P;}")
         m = t2.fmatch("Parameter::Free(..)=>{*$F=(cur[self.grad_index[$V]]-delta[self.grad_index[$V]]);}", bind=m) if m is not None else None
     m = t2.fmatch("let$F=&mutself.input_point[$I];", bind=m) if m is not None else None
+    if m is None:
+        # the same assignment with the match as the value: `self.input_point[i] = match p { .. }`
+        m = t2.fmatch("self.input_point[$I]=match$Q{")
+        m = t2.fmatch("Parameter::Fixed($P)=>*$P", bind=m) if m is not None else None
+        if m is not None:
+            m = t2.fmatch("Parameter::Free(..)=>{let$G=self.grad_index[$V];(cur[$G]-delta[$G])}", bind=m) or t2.fmatch("Parameter::Free(..)=>(cur[self.grad_index[$V]]-delta[self.grad_index[$V]])", bind=m)
     if m is not None:
         rule.ok("get_err: fixed parameters keep their value; free ones are tried at cur - delta")
     else:
@@ -179,7 +190,7 @@ def r2_packing(rule, root=None):
                 rule.ok("writer: j enumerates the samples of the parameter's own row")
             else:
                 rule.bad("pack|writer", "the unit seeds are %s; sample j must carry d/d(param 3j+k) in lane k, i.e. %s" % (a, want), A.where(jac, calls[0]))
-    t = txt(jac["body"])
+    t = txt(A.value_view(jac["body"]))  # `let grads = &out[0]`, `let free_count = ..` read as what they name
     m = first(
         t,
         [
@@ -202,7 +213,7 @@ def r2_packing(rule, root=None):
         rule.ok("batch width = ceil(free parameters / 3)")
     else:
         rule.bad("pack|width", "each gradient row must hold ceil(free / 3) samples", A.where(new))
-    if t.fmatch("vars.len().max(grad_tapes.iter().map(|$T|$T.vars().len()).max().unwrap_or(0))") is not None:
+    if t.fmatch("vars.len().max(grad_tapes.iter().map(|$T|$T.vars().len()).max().unwrap_or(0))") is not None or t.fmatch("grad_tapes.iter().fold(vars.len(),|$N,$T|$N.max($T.vars().len()))") is not None:
         rule.ok("scratch rows cover both the parameter count and the widest tape")
     else:
         rule.bad("pack|rows", "the scratch must have max(parameters, widest tape) rows", A.where(new))
@@ -220,6 +231,9 @@ def r2_packing(rule, root=None):
 def r3_exits(rule, root=None):
     solve = A.find_fn(SOL, "solve", root=root)
     loops = [l for l in A.find(solve["body"], "For") if txt(l["iter"]) == "0.."]
+    if not loops:
+        # the same unbounded iteration written as `loop` with its own counter
+        loops = [l for l in A.find(solve["body"], "Loop") if any(c["method"] == "get_jacobian" for c in A.find(l["body"], "MethodCall")) and any(str(txt(s_)).startswith("solver.get_jacobian(") for s_ in l["body"]["stmts"])]
     if len(loops) != 1:
         rule.lost("the `for i in 0..` iteration loop in solve")
         return
@@ -230,7 +244,7 @@ def r3_exits(rule, root=None):
         return next((i for i, s in enumerate(seq) if pred(s)), None)
 
     i_jac = idx(lambda s: s.startswith("solver.get_jacobian(&cur,&mutjacobian,&mutresult)"))
-    i_exit = idx(lambda s: s.fmatch("ifresult.iter().all(|$V|(*$V==0.0)){break;}") is not None)
+    i_exit = idx(lambda s: s.fmatch("ifresult.iter().all(|$V|(*$V==0.0)){break;}") is not None or s.fmatch("if!result.iter().any(|$V|(*$V!=0.0)){break;}") is not None)
     # the update: inline `cur[gi] -= step[gi]` or a same-file helper doing it (FragText follows helpers for bodies)
     upd_frags = ["($C[$G]-=step[$G])", "($C[$G]-=$S[$G])"]
     i_upd = idx(lambda s: any(A.ftxt({"k": "Block", "stmts": [body[seq.index(s)]], "ln": 0}).fmatch(f) is not None for f in upd_frags) or any(s.fmatch(f) is not None for f in upd_frags))
